@@ -52,6 +52,7 @@ class Section(object):
         self.unexplored = 0
         self.wall_s = 0.0
         self.extra = {}
+        self.by_param = {}
 
     def merge(self, o):
         self.paths += o.paths
@@ -71,6 +72,8 @@ class Section(object):
         self.queries += o.queries
         self.solver_s += o.solver_s
         self.unexplored += o.unexplored
+        for k, v in o.by_param.items():
+            self.by_param[k] = self.by_param.get(k, 0) + v
 
     @property
     def exhaustive(self):
@@ -126,6 +129,8 @@ def _work(item):
     except Exception:
         sec.harness_errors.append({'param': _jsonable(param), 'message': traceback.format_exc()})
         frontier = []
+    pname = param.get('name', str(pidx)) if isinstance(param, dict) else str(pidx)
+    sec.by_param[pname] = sec.paths
     sec.queries = ex.queries
     sec.solver_s = ex.solver_s
     return pidx, sec, frontier
@@ -274,6 +279,8 @@ class Report(object):
             print('[%s] %-28s paths=%d %s nontrivial=%d oblig=%d/%d queries=%d solver=%.1fs wall=%.1fs unexplored=%d'
                   % (self.prop, s.name, s.paths, dict(s.by_status), s.nontrivial, s.discharged,
                      s.obligations, s.queries, s.solver_s, s.wall_s, s.unexplored))
+            if 1 < len(s.by_param) <= 12:
+                print('[%s]    paths by param: %s' % (self.prop, s.by_param))
         for n in self.notes:
             print('[%s] %s' % (self.prop, n))
         for l in lines:
@@ -330,7 +337,8 @@ class Report(object):
                           'nontrivial': s.nontrivial, 'queries': s.queries,
                           'solver_s': round(s.solver_s, 3), 'wall_s': round(s.wall_s, 2),
                           'unexplored_prefixes': s.unexplored,
-                          'witnesses': sorted(s.witnesses), 'extra': s.extra} for s in S],
+                          'witnesses': sorted(s.witnesses), 'extra': s.extra,
+                          'paths_by_param': s.by_param if len(s.by_param) <= 40 else {'n_params': len(s.by_param)}} for s in S],
             'engine_stats': {k: v for k, v in es.items() if k not in ('inconclusive',)},
             'known_findings_hit': {k: len(v[1]) for k, v in listed.items()},
             'harness_errors': herr[:5],
